@@ -31,7 +31,8 @@ ConfReg == 2 * Len(Names)
 Conform(i) ==
     LET r == Apply(gh.cfg, Trace[i - 1].post, Trace[i].ev)
         obs == Trace[i].out.result
-    IN IF r.res = "unmodelled" THEN Bump(ConfReg + 3)
+    IN IF r.res = "unmodelled" \/ Trace[i].post.inexact # <<>> \/ Trace[i - 1].post.inexact # <<>> \/ r.st.inexact # <<>>
+       THEN Bump(ConfReg + 3)   \* not modelled, or outside the exact-arithmetic fragment (DESIGN 3.3): skipped, and counted
        ELSE /\ Bump(ConfReg + 1)
             /\ IF r.res # obs THEN Bump(ConfReg + 2) /\ PrintT(<<"DIVERGED", i, Trace[i].seq, Trace[i].ev.kind, "result", r.res, obs>>)
                ELSE IF obs \in {"PANIC", "HANG"} THEN TRUE
